@@ -1,7 +1,7 @@
 (* props/C07.v — C07: wait() is a true barrier and always returns; shutdown
    terminates.  ONLY theorem statements about the executable model Buffer.v (the
    model the correspondence check runs against /repo), each closed by a lemma of
-   BufferWait.v / BufferReturn.v / BufferFlag.v / BufferJoin.v, with
+   BufferWait.v / BufferReturn.v / BufferFlag.v / BufferJoin.v / BufferMon*.v, with
    Print Assumptions beneath, and non-vacuity Examples at the end.
 
    Vocabulary.  [trace T evs]: per external event, what the harness observes
